@@ -389,7 +389,7 @@ impl Micro {
 // labels 0..k-1), so that `variant` applies unchanged.
 
 /// Tags of the edge data sets (a subject lists the tags it is fitted on in the edge family).
-pub const EDGE_TAGS: [&str; 5] = ["plain", "two-rows", "const-target", "rank-one", "class-counts"];
+pub const EDGE_TAGS: [&str; 6] = ["plain", "two-rows", "const-target", "rank-one", "class-counts", "many-classes"];
 
 /// The edge catalogue: (tag, data set).
 /// * `plain`: the six catalogue data sets unchanged (for subjects whose CONFIGURATION is the
@@ -474,6 +474,22 @@ pub fn edge_catalogue(thorough: bool) -> Vec<(&'static str, Data)> {
                 y_reg: (0..n).map(|i| (i % 5) as f64).collect(),
                 y_bin: y_multi.iter().map(|c| if *c == 0.0 { 0.0 } else { 1.0 }).collect(),
                 y_multi,
+                unit: 1.0,
+                off: 0.0,
+            },
+        ));
+    }
+    // `many-classes`: every row its own class, 255..258 (thorough: + 65535..65537 is too slow) classes
+    for n in [255usize, 256, 257, 258] {
+        let x: Vec<Vec<f64>> = (0..n).map(|i| vec![i as f64, ((i * 7) % 13) as f64]).collect();
+        v.push((
+            "many-classes",
+            Data {
+                name: format!("edge-many-classes-{}", n),
+                x,
+                y_reg: (0..n).map(|i| i as f64).collect(),
+                y_bin: (0..n).map(|i| (i % 2) as f64).collect(),
+                y_multi: (0..n).map(|i| i as f64).collect(),
                 unit: 1.0,
                 off: 0.0,
             },
